@@ -41,6 +41,10 @@ TRUSTED_BASE = [
     'fixture: columns a=IntCol() b=StringCol(default=None) c=IntCol(default=7); values None / small ints / short lowercase strings; '
     'listeners are the programs log / kwargs[c]=v / kwargs.pop(c) / post_funcs.append / raise once / append a callback that raises once; '
     'listeners never touch the database, '
+    'listeners that create rows of a third (audit) class, from the receiver or from a callback: that class, its rows, its listeners (log / append '
+    'callback only) and its events are OUTSIDE the Coq model (there such a listener is a log / callback listener); the harness takes the audit '
+    'events out of the trace and the oracle alone judges them; they are not combined with raising listeners; '
+    'a quarter of the listeners is registered with weak=False and referenced by nobody but the dispatcher; '
     'never add a non-column key; one connection, one thread, no transactions; chain listeners only log, append callbacks, or raise once at the '
     'create / create-finished signals (a raising destroy listener inside the clean-up of a failed chain creation is not modelled); '
     'every case starts with the per-thread list of postponed RowCreatedSignals removed if a previous case left one (cases are judged on their own)',
@@ -103,7 +107,7 @@ def deliver(table, sig, k, rid, kw, fired=None):
             fired.add(i)
             raise Raised()
         apply_act(sig, act, kw)
-        if act[0] in ('post', 'postraise') and sig in HAS_POSTS:
+        if act[0] in ('post', 'postraise', 'postmake') and sig in HAS_POSTS:
             tags.append((act[1], i, act[0] == 'postraise'))
     return evs, tags
 
@@ -214,6 +218,24 @@ def plain_case(rng, stream):
                       'late': [rand_listener(rng, SIGS, rewrite=(rng.random() < 0.5)) for _ in range(rng.choice([0, 1, 1, 2]))]}
             # listeners of the base that are gone before the subclass statement, interleaved with the live ones
             sub[k]['dead'] = [[rng.randint(0, sub[k]['split']), rng.choice(SIGS)] for _ in range(rng.choice([0, 0, 1, 2, 3]))]
+    # listeners that create rows of a third (audit) class -- from the receiver or from a callback it appends; not together
+    # with raising listeners (a raise in the flush of an outer constructor drops the queued create-finished events)
+    aud = []
+    if stream != 'raising' and rng.random() < 0.3:
+        for k in range(2):
+            for _ in range(rng.choice([0, 1, 1, 2])):
+                sig = rng.choice(['created', 'created', 'create', 'updated', 'update', 'destroy', 'destroyed'])
+                lis[k].insert(rng.randint(0, len(lis[k])), [sig, ['make'] if rng.random() < 0.5 or sig == 'update' else ['postmake', rng.randint(0, 9)]])
+        aud = [[rng.choice(['create', 'created']), rng.choice([['log'], ['post', rng.randint(0, 9)]])] for _ in range(rng.choice([1, 2, 3]))]
+        if not any(a[0] == 'created' for a in aud):
+            aud.append(['created', ['log']])
+    if stream == 'raising':
+        for k in range(2):          # (insertions above may have shifted the numbers the callback tags refer to)
+            for i, l in enumerate(lis[k]):
+                if l[1][0] == 'postraise':
+                    l[1] = ['postraise', 100 + i]
+    # some listeners are registered with weak=False and referenced by nobody but the dispatcher
+    strong = [[i for i in range(len(lis[k])) if rng.random() < 0.25] for k in range(2)]
     tabs = [list(enumerate(l)) for l in lis]
     nops = rng.randint(5, 40)
     ops, noread = [], []
@@ -286,6 +308,10 @@ def plain_case(rng, stream):
     noread += [i for i in range(len(ops)) if rng.random() < 0.12]
     if noread:
         case['noread'] = sorted(set(noread))
+    if aud:
+        case['aud'] = aud
+    if strong[0] or strong[1]:
+        case['strong'] = strong
     return case
 
 
@@ -328,7 +354,11 @@ def chain_case(rng, failing, raising=False):
             cs.append(0)
         rng.shuffle(cs)
         ops.append([lvl, [[c, rand_val(rng, c, bad)] for c in cs]])
-    return {'kind': 'chain', 'stream': 'chain-raising' if raising else 'chain-failing' if failing else 'chain', 'script': script, 'ops': ops}
+    case = {'kind': 'chain', 'stream': 'chain-raising' if raising else 'chain-failing' if failing else 'chain', 'script': script, 'ops': ops}
+    strong = [i for i in range(len(lst)) if rng.random() < 0.25]
+    if strong:
+        case['strong'] = strong
+    return case
 
 
 def corpus():
@@ -370,6 +400,15 @@ def corpus():
          'sub': [{'split': 3, 'late': [], 'dead': [[0, 'create'], [1, 'update'], [1, 'created'], [2, 'updated']]}, None],
          'lis': [[['create', ['log']], ['created', ['post', 1]], ['updated', ['log']], ['update', ['log']]], []],
          'ops': [['create', 0, [[0, 1]]], ['assign', 0, 1, 0, 5], ['set', 0, 1, [[1, 'q'], [2, 3]]], ['destroy', 0, 1]]},
+        # listeners that create rows of the audit class: from a create-finished receiver, from its callback, from a before-create
+        # receiver (queued behind / before the outer object's own create-finished event), from update and destroy listeners
+        # (complete creations on the spot); every audit row gets its RowCreateSignal and RowCreatedSignal once
+        {'kind': 'plain', 'stream': 'valid', 'aud': [['create', ['log']], ['created', ['post', 4]], ['created', ['log']]],
+         'strong': [[0, 2], [0]],
+         'lis': [[['created', ['make']], ['created', ['postmake', 1]], ['create', ['make']], ['updated', ['postmake', 2]], ['destroy', ['make']]],
+                 [['created', ['log']], ['update', ['make']]]],
+         'ops': [['create', 0, [[0, 1]]], ['assign', 0, 1, 0, 5], ['create', 1, [[0, 2]]], ['assign', 1, 1, 1, 'x'], ['create', 0, [[0, 'bad']]],
+                 ['destroy', 0, 1]]},
         # a create-finished receiver / callback raises once; the later creations (same class, other class, chain) must still get theirs
         {'kind': 'plain', 'stream': 'raising', 'lis': [[['created', ['raise']], ['created', ['log']]], [['created', ['post', 1]]]],
          'ops': [['create', 0, [[0, 1]]], ['create', 0, [[0, 2]]], ['create', 1, [[0, 3]]], ['assign', 0, 2, 0, 5]]},
@@ -480,6 +519,10 @@ def _make_receiver(events, trace, classes, sig, act, li):
     def cidx(inst):
         return classes.index(type(inst))
 
+    def make_audit():
+        # a row of the audit class (classes[2]); the listener keeps no reference to it
+        classes[2](n=li)
+
     armed = [True]          # 'raise' / 'postraise' go off once
 
     def callback_raising(tag):
@@ -507,6 +550,15 @@ def _make_receiver(events, trace, classes, sig, act, li):
         elif act[0] == 'post' and post_funcs is not None:
             tag = act[1]
             post_funcs.append(lambda i: trace.append(['post', sig, tag, cidx(i), i.id]))
+        elif act[0] == 'make':
+            make_audit()
+        elif act[0] == 'postmake' and post_funcs is not None:
+            tag = act[1]
+
+            def cb(i):
+                trace.append(['post', sig, tag, cidx(i), i.id])
+                make_audit()
+            post_funcs.append(cb)
     if sig in ('create', 'created'):
         def recv(instance, kwargs, post_funcs):
             body(instance, kwargs, post_funcs)
@@ -568,13 +620,30 @@ def run_plain(case):
     trace, keep = [], []
     sigs = _signals()
     sub = case.get('sub') or [None, None]
-    classes = [None, None]
+    classes = [None, None, None]
+    strong = case.get('strong') or [[], [], []]
 
     def listen_all(items, k, target, base=0):
         for li, (sig, act) in items:
             r = _make_receiver(events, trace, classes, sig, act, li + base)
-            keep.append(r)
-            events.listen(r, target, sigs[sig])
+            if base == 0 and li in strong[k]:
+                # registered with weak=False and referenced by nobody else: the dispatcher alone keeps it alive
+                events.listen(r, target, sigs[sig], weak=False)
+                del r
+                gc.collect()
+            else:
+                keep.append(r)
+                events.listen(r, target, sigs[sig])
+
+    # the audit class: rows of it are created by 'make' / 'postmake' listeners of the two fixture classes; its own
+    # listeners (numbered from 3000) only log or append callbacks.  It is outside the Coq model: its events and writes
+    # are taken out of the operation's trace (step['aud']) and judged by the oracle alone.
+    classes[2] = type(SQLObject)('VC19Audit', (SQLObject,), {
+        'sqlmeta': type('sqlmeta', (), {'table': 't_u', 'registry': reg}), '_connection': conn, 'n': IntCol(default=0)})
+    for li, (sig, act) in enumerate(case.get('aud') or []):
+        r = _make_receiver(events, trace, classes, sig, act, 3000 + li)
+        keep.append(r)
+        events.listen(r, classes[2], sigs[sig])
 
     for k, (table, lazy) in enumerate((('t_e', False), ('t_l', True))):
         meta = {'table': table, 'registry': reg, 'lazyUpdate': lazy}
@@ -615,7 +684,10 @@ def run_plain(case):
     for k in classes:
         k.createTable()
     tables = ['t_e', 't_l']
-    orig = _wrap(conn, trace, tables, {'a': 0, 'b': 1, 'c': 2})
+    orig = _wrap(conn, trace, tables + ['t_u'], {'a': 0, 'b': 1, 'c': 2, 'n': 0})
+
+    def is_aud(e):
+        return (e[0] == 'sig' and e[2] == 2) or (e[0] == 'post' and e[3] == 2) or (e[0] == 'w' and e[1] != 'other' and e[2] == 2)
     handles = [{}, {}]
 
     def dump():
@@ -698,7 +770,8 @@ def run_plain(case):
                 name = type(e).__name__
                 out = ['exn', EXC.get(name, 'other:' + name)]
             signal.setitimer(signal.ITIMER_REAL, 0)
-            steps_trace = list(trace)
+            aud_trace = [e for e in trace if is_aud(e)]
+            steps_trace = [e for e in trace if not is_aud(e)]
             tb = dump()
             hv = hview()
             del trace[:]
@@ -706,6 +779,8 @@ def run_plain(case):
             # next operation meets the instance as the previous one left it
             av = aview() if len(steps) not in noread else [[], []]
             steps.append({'out': out, 'tr': steps_trace, 'tables': tb, 'handles': hv, 'attrs': av, 'read_tr': list(trace)})
+            if aud_trace:
+                steps[-1]['aud'] = aud_trace
             if out == ['exn', 'other:OpTimeout']:
                 break           # the instance's write lock is still held: the rest of the history would hang again
     finally:
@@ -721,6 +796,7 @@ def run_plain(case):
 
 
 def run_chain(case):
+    import gc
     from sqlobject import IntCol, StringCol, events
     from sqlobject.inheritance import InheritableSQLObject
     from sqlobject.sqlite.sqliteconnection import SQLiteConnection
@@ -760,8 +836,14 @@ def run_chain(case):
         else:
             _, l, li, (sig, act) = item
             r = _make_receiver(events, trace, classes, sig, act, li)
-            keep.append(r)
-            events.listen(r, classes[l], sigs[sig])
+            if li in (case.get('strong') or []):
+                # weak=False, referenced by nobody else (its clones on the subclasses are weak: they live as long as this one)
+                events.listen(r, classes[l], sigs[sig], weak=False)
+                del r
+                gc.collect()
+            else:
+                keep.append(r)
+                events.listen(r, classes[l], sigs[sig])
     for k in classes:
         k.createTable()
     # what propagation connected to each class (events.subclassClones is SQLObject's own record of it)
@@ -849,6 +931,10 @@ def cact(a):
         return '(ASet %s %s)' % (CCOL[a[1]], cval(a[2]))
     if a[0] == 'del':
         return '(ADel %s)' % CCOL[a[1]]
+    if a[0] == 'make':
+        return 'AMake'
+    if a[0] == 'postmake':
+        return '(APostMake %s)' % z(a[1])
     if a[0] == 'raise':
         return 'ARaise'
     if a[0] == 'postraise':
@@ -1055,6 +1141,38 @@ def _attrs_ok(s):
     return None
 
 
+def _audit_ok(c, s):
+    """the rows that listeners created in the audit class during this operation (the audit part of the trace, in
+    order): every such row -- its constructor returned, audit listeners never raise -- got RowCreateSignal once per
+    receiver before its INSERT, and RowCreatedSignal once per receiver plus the callbacks after it"""
+    tr = s.get('aud') or []
+    if not tr:
+        return None
+    if any(l[1][0] in ('raise', 'postraise') for k in range(2) for l in c['lis'][k]):
+        return None     # (a raise in an outer flush drops queued create-finished events: not judged)
+    table = [(3000 + i, l) for i, l in enumerate(c.get('aud') or [])]
+    ids = [e[3] for e in tr if e[0] == 'w' and e[1] == 'ins']
+    pre = [e for e in tr if (e[0] == 'sig' and e[1] == 'create') or (e[0] == 'post' and e[1] == 'create') or e[0] == 'w']
+    exp_pre = []
+    for rid in ids:
+        evs, tags = deliver(table, 'create', 2, None, {})
+        exp_pre += evs + [['w', 'ins', 2, rid, None]] + run_tags(tags, 'create', 2, rid)
+    got_pre = [(e[:4] + [None] if e[0] == 'w' else e) for e in pre]
+    if _norm(got_pre) != _norm(exp_pre):
+        return {'what': 'rows created by a listener: RowCreateSignal / INSERT / callbacks differ from once per row and receiver',
+                'expected': exp_pre, 'actual': got_pre}
+    for rid in ids:
+        exp = after_part(table, 'created', 2, rid)
+        got = [e for e in tr if (e[0] == 'sig' and e[1] == 'created' and e[3] == rid) or (e[0] == 'post' and e[1] == 'created' and e[4] == rid)]
+        if _norm(got) != _norm(exp):
+            return {'what': 'a row created by a listener did not get its RowCreatedSignal (and callbacks) exactly once', 'row': rid,
+                    'expected': exp, 'actual': got}
+        pos_ins = [j for j, e in enumerate(tr) if e[0] == 'w' and e[1] == 'ins' and e[3] == rid][0]
+        if any(j < pos_ins for j, e in enumerate(tr) if e in got):
+            return {'what': 'RowCreatedSignal of a row created by a listener came before its INSERT', 'row': rid, 'actual': tr}
+    return None
+
+
 def oracle_plain(c, o):
     tabs = [list(enumerate(l)) for l in c['lis']]
     pre_tables, pre_handles = [[], []], [[], []]
@@ -1087,7 +1205,7 @@ def oracle_plain(c, o):
             return f
         if any(h[2] for hs in s['handles'] for h in hs):
             return {'what': 'row_update_sig_suppress is still set on an instance after the operation', 'step': i, 'op': op}
-        f = _attrs_ok(s)
+        f = _attrs_ok(s) or _audit_ok(c, s)
         if f:
             f['step'] = i
             f['op'] = op
@@ -1195,7 +1313,7 @@ def nontrivial(c, o):
 
 
 def key(c):
-    return [c['kind'], c.get('lis') or c.get('script'), c.get('sub'), c.get('noread'), c['ops']]
+    return [c['kind'], c.get('lis') or c.get('script'), c.get('sub'), c.get('noread'), c.get('aud'), c.get('strong'), c['ops']]
 
 
 def distribution(cases, obs):
